@@ -135,7 +135,7 @@ Scalar MASA::axi_cns_transient<Scalar>::eval_q_e (Scalar r, Scalar z, Scalar t)
   P = p_0 + p_r * sin(a_pr * PI * r / L) + p_z * cos(a_pz * PI * z / L) + p_t * cos(a_pt * PI * t / L);
   U = u_r * (cos(a_ur * PI * r / L) - 0.1e1) * (u_z * sin(a_uz * PI * z / L) + u_t * cos(a_ut * PI * t / L));
   W = w_0 + w_r * cos(a_wr * PI * r / L) + w_z * sin(a_wz * PI * z / L) + w_t * cos(a_wt * PI * t / L);
-  Q_e = (U * U + W * W) * a_rhot * PI * rho_t * cos(a_rhot * PI * t / L) / L / 0.2e1 - a_pt * PI * p_t * sin(a_pt * PI * t / L) / (Gamma - 0.1e1) / L + (0.3e1 * a_uz * a_uz * u_z * cos(a_ur * PI * r / L) * sin(a_uz * PI * z / L) + 0.4e1 * a_ur * a_ur * u_z * sin(a_uz * PI * z / L) + 0.4e1 * a_ur * a_ur * u_t * cos(a_ut * PI * t / L) - 0.3e1 * a_uz * a_uz * u_z * sin(a_uz * PI * z / L)) * mu * PI * PI * u_r * U * pow(L, Scalar(-0.2e1)) / 0.3e1 - (-a_uz * u_r * u_z * cos(a_ur * PI * r / L) * cos(a_uz * PI * z / L) + a_uz * u_r * u_z * cos(a_uz * PI * z / L) + a_wr * w_r * sin(a_wr * PI * r / L)) * PI * RHO * U * W / L - (a_ur * u_r * u_z * sin(a_ur * PI * r / L) * sin(a_uz * PI * z / L) + a_ur * u_r * u_t * sin(a_ur * PI * r / L) * cos(a_ut * PI * t / L) - a_wz * w_z * cos(a_wz * PI * z / L)) * Gamma * PI * P / (Gamma - 0.1e1) / L + (sin(a_pr * PI * r / L) * a_pr * a_pr * p_r + cos(a_pz * PI * z / L) * a_pz * a_pz * p_z) * k * PI * PI / R * pow(L, Scalar(-0.2e1)) / RHO - (0.2e1 * a_rhor * a_pr * rho_r * p_r * sin(a_rhor * PI * r / L) * cos(a_pr * PI * r / L) + 0.2e1 * a_rhoz * a_pz * rho_z * p_z * cos(a_rhoz * PI * z / L) * sin(a_pz * PI * z / L)) * k * PI * PI / R * pow(L, Scalar(-0.2e1)) * pow(RHO, Scalar(-0.2e1)) - (U * U + W * W) * a_rhor * PI * rho_r * U * sin(a_rhor * PI * r / L) / L / 0.2e1 + (U * U + W * W) * a_rhoz * PI * rho_z * W * cos(a_rhoz * PI * z / L) / L / 0.2e1 - (a_rhor * a_rhor * rho_r * cos(a_rhor * PI * r / L) + a_rhoz * a_rhoz * rho_z * sin(a_rhoz * PI * z / L)) * k * PI * PI * P / R * pow(L, Scalar(-0.2e1)) * pow(RHO, Scalar(-0.2e1)) - (0.2e1 * a_rhor * a_rhor * rho_r * rho_r * pow(sin(a_rhor * PI * r / L), Scalar(0.2e1)) + 0.2e1 * a_rhoz * a_rhoz * rho_z * rho_z * pow(cos(a_rhoz * PI * z / L), Scalar(0.2e1))) * k * PI * PI * P / R * pow(L, Scalar(-0.2e1)) * pow(RHO, Scalar(-0.3e1)) - a_wt * PI * w_t * RHO * W * sin(a_wt * PI * t / L) / L + RHO * pow(U, Scalar(0.3e1)) / r / 0.2e1 + 0.4e1 / 0.3e1 * mu * a_ur * a_ur * PI * PI * U * U * pow(L, Scalar(-0.2e1)) - (0.3e1 * a_ur * u_r * u_z * sin(a_ur * PI * r / L) * sin(a_uz * PI * z / L) + 0.3e1 * a_ur * u_r * u_t * sin(a_ur * PI * r / L) * cos(a_ut * PI * t / L) - a_wz * w_z * cos(a_wz * PI * z / L)) * PI * RHO * U * U / L / 0.2e1 - (a_ur * u_r * u_z * sin(a_ur * PI * r / L) * sin(a_uz * PI * z / L) + a_ur * u_r * u_t * sin(a_ur * PI * r / L) * cos(a_ut * PI * t / L) - 0.3e1 * a_wz * w_z * cos(a_wz * PI * z / L)) * PI * RHO * W * W / L / 0.2e1 + (a_ur * a_uz * u_r * u_z * sin(a_ur * PI * r / L) * cos(a_uz * PI * z / L) + 0.4e1 * sin(a_wz * PI * z / L) * a_wz * a_wz * w_z) * mu * PI * PI * W * pow(L, Scalar(-0.2e1)) / 0.3e1 + Gamma * P * U / (Gamma - 0.1e1) / r + RHO * U * W * W / r / 0.2e1 - (0.4e1 * a_ur * a_ur * u_r * u_r * u_z * u_z * pow(sin(a_ur * PI * r / L), Scalar(0.2e1)) * pow(sin(a_uz * PI * z / L), Scalar(0.2e1)) + 0.8e1 * a_ur * a_ur * u_r * u_r * u_z * u_t * pow(sin(a_ur * PI * r / L), Scalar(0.2e1)) * sin(a_uz * PI * z / L) * cos(a_ut * PI * t / L) + 0.4e1 * a_ur * a_ur * u_r * u_r * u_t * u_t * pow(sin(a_ur * PI * r / L), Scalar(0.2e1)) * pow(cos(a_ut * PI * t / L), Scalar(0.2e1)) + 0.3e1 * a_uz * a_uz * u_r * u_r * u_z * u_z * pow(cos(a_ur * PI * r / L), Scalar(0.2e1)) * pow(cos(a_uz * PI * z / L), Scalar(0.2e1)) - 0.6e1 * a_uz * a_uz * u_r * u_r * u_z * u_z * cos(a_ur * PI * r / L) * pow(cos(a_uz * PI * z / L), Scalar(0.2e1)) + 0.4e1 * a_ur * a_wz * u_r * u_z * w_z * sin(a_ur * PI * r / L) * sin(a_uz * PI * z / L) * cos(a_wz * PI * z / L) + 0.4e1 * a_ur * a_wz * u_r * u_t * w_z * sin(a_ur * PI * r / L) * cos(a_ut * PI * t / L) * cos(a_wz * PI * z / L) + 0.3e1 * a_uz * a_uz * u_r * u_r * u_z * u_z * pow(cos(a_uz * PI * z / L), Scalar(0.2e1)) - 0.3e1 * a_uz * a_wr * u_r * u_z * w_r * cos(a_ur * PI * r / L) * cos(a_uz * PI * z / L) * sin(a_wr * PI * r / L) + 0.3e1 * a_uz * a_wr * u_r * u_z * w_r * cos(a_uz * PI * z / L) * sin(a_wr * PI * r / L) + 0.4e1 * a_wz * a_wz * w_z * w_z * pow(cos(a_wz * PI * z / L), Scalar(0.2e1))) * mu * PI * PI * pow(L, Scalar(-0.2e1)) / 0.3e1 - Gamma * a_pz * PI * p_z * W * sin(a_pz * PI * z / L) / (Gamma - 0.1e1) / L + 0.4e1 / 0.3e1 * mu * a_wz * PI * w_z * U * cos(a_wz * PI * z / L) / L / r + Gamma * a_pr * PI * p_r * U * cos(a_pr * PI * r / L) / (Gamma - 0.1e1) / L - (cos(a_ur * PI * r / L) - 0.1e1) * a_ut * PI * u_r * u_t * RHO * U * sin(a_ut * PI * t / L) / L - (cos(a_ur * PI * r / L) - 0.1e1) * mu * a_uz * PI * u_r * u_z * W * cos(a_uz * PI * z / L) / L / r / 0.3e1 - k * a_pr * PI * p_r * cos(a_pr * PI * r / L) / R / L / r / RHO - k * a_rhor * PI * rho_r * P * sin(a_rhor * PI * r / L) / R / L / r * pow(RHO, Scalar(-0.2e1));
+  Q_e = (U * U + W * W) * a_rhot * PI * rho_t * cos(a_rhot * PI * t / L) / L / 0.2e1 - a_pt * PI * p_t * sin(a_pt * PI * t / L) / (Gamma - 0.1e1) / L + (0.3e1 * a_uz * a_uz * u_z * cos(a_ur * PI * r / L) * sin(a_uz * PI * z / L) + 0.4e1 * a_ur * a_ur * u_z * sin(a_uz * PI * z / L) + 0.4e1 * a_ur * a_ur * u_t * cos(a_ut * PI * t / L) - 0.3e1 * a_uz * a_uz * u_z * sin(a_uz * PI * z / L)) * mu * PI * PI * u_r * U * pow(L, Scalar(-0.2e1)) / 0.3e1 - (-a_uz * u_r * u_z * cos(a_ur * PI * r / L) * cos(a_uz * PI * z / L) + a_uz * u_r * u_z * cos(a_uz * PI * z / L) + a_wr * w_r * sin(a_wr * PI * r / L)) * PI * RHO * U * W / L - (a_ur * u_r * u_z * sin(a_ur * PI * r / L) * sin(a_uz * PI * z / L) + a_ur * u_r * u_t * sin(a_ur * PI * r / L) * cos(a_ut * PI * t / L) - a_wz * w_z * cos(a_wz * PI * z / L)) * Gamma * PI * P / (Gamma - 0.1e1) / L + (sin(a_pr * PI * r / L) * a_pr * a_pr * p_r + cos(a_pz * PI * z / L) * a_pz * a_pz * p_z) * k * PI * PI / R * pow(L, Scalar(-0.2e1)) / RHO - (0.2e1 * a_rhor * a_pr * rho_r * p_r * sin(a_rhor * PI * r / L) * cos(a_pr * PI * r / L) + 0.2e1 * a_rhoz * a_pz * rho_z * p_z * cos(a_rhoz * PI * z / L) * sin(a_pz * PI * z / L)) * k * PI * PI / R * pow(L, Scalar(-0.2e1)) * pow(RHO, Scalar(-0.2e1)) - (U * U + W * W) * a_rhor * PI * rho_r * U * sin(a_rhor * PI * r / L) / L / 0.2e1 + (U * U + W * W) * a_rhoz * PI * rho_z * W * cos(a_rhoz * PI * z / L) / L / 0.2e1 - (a_rhor * a_rhor * rho_r * cos(a_rhor * PI * r / L) + a_rhoz * a_rhoz * rho_z * sin(a_rhoz * PI * z / L)) * k * PI * PI * P / R * pow(L, Scalar(-0.2e1)) * pow(RHO, Scalar(-0.2e1)) - (0.2e1 * a_rhor * a_rhor * rho_r * rho_r * pow(sin(a_rhor * PI * r / L), Scalar(0.2e1)) + 0.2e1 * a_rhoz * a_rhoz * rho_z * rho_z * pow(cos(a_rhoz * PI * z / L), Scalar(0.2e1))) * k * PI * PI * P / R * pow(L, Scalar(-0.2e1)) * pow(RHO, Scalar(-0.3e1)) - a_wt * PI * w_t * RHO * W * sin(a_wt * PI * t / L) / L + RHO * pow(U, Scalar(0.3e1)) / r / 0.2e1 + Scalar(0.4e1) / Scalar(0.3e1) * mu * a_ur * a_ur * PI * PI * U * U * pow(L, Scalar(-0.2e1)) - (0.3e1 * a_ur * u_r * u_z * sin(a_ur * PI * r / L) * sin(a_uz * PI * z / L) + 0.3e1 * a_ur * u_r * u_t * sin(a_ur * PI * r / L) * cos(a_ut * PI * t / L) - a_wz * w_z * cos(a_wz * PI * z / L)) * PI * RHO * U * U / L / 0.2e1 - (a_ur * u_r * u_z * sin(a_ur * PI * r / L) * sin(a_uz * PI * z / L) + a_ur * u_r * u_t * sin(a_ur * PI * r / L) * cos(a_ut * PI * t / L) - 0.3e1 * a_wz * w_z * cos(a_wz * PI * z / L)) * PI * RHO * W * W / L / 0.2e1 + (a_ur * a_uz * u_r * u_z * sin(a_ur * PI * r / L) * cos(a_uz * PI * z / L) + 0.4e1 * sin(a_wz * PI * z / L) * a_wz * a_wz * w_z) * mu * PI * PI * W * pow(L, Scalar(-0.2e1)) / 0.3e1 + Gamma * P * U / (Gamma - 0.1e1) / r + RHO * U * W * W / r / 0.2e1 - (0.4e1 * a_ur * a_ur * u_r * u_r * u_z * u_z * pow(sin(a_ur * PI * r / L), Scalar(0.2e1)) * pow(sin(a_uz * PI * z / L), Scalar(0.2e1)) + 0.8e1 * a_ur * a_ur * u_r * u_r * u_z * u_t * pow(sin(a_ur * PI * r / L), Scalar(0.2e1)) * sin(a_uz * PI * z / L) * cos(a_ut * PI * t / L) + 0.4e1 * a_ur * a_ur * u_r * u_r * u_t * u_t * pow(sin(a_ur * PI * r / L), Scalar(0.2e1)) * pow(cos(a_ut * PI * t / L), Scalar(0.2e1)) + 0.3e1 * a_uz * a_uz * u_r * u_r * u_z * u_z * pow(cos(a_ur * PI * r / L), Scalar(0.2e1)) * pow(cos(a_uz * PI * z / L), Scalar(0.2e1)) - 0.6e1 * a_uz * a_uz * u_r * u_r * u_z * u_z * cos(a_ur * PI * r / L) * pow(cos(a_uz * PI * z / L), Scalar(0.2e1)) + 0.4e1 * a_ur * a_wz * u_r * u_z * w_z * sin(a_ur * PI * r / L) * sin(a_uz * PI * z / L) * cos(a_wz * PI * z / L) + 0.4e1 * a_ur * a_wz * u_r * u_t * w_z * sin(a_ur * PI * r / L) * cos(a_ut * PI * t / L) * cos(a_wz * PI * z / L) + 0.3e1 * a_uz * a_uz * u_r * u_r * u_z * u_z * pow(cos(a_uz * PI * z / L), Scalar(0.2e1)) - 0.3e1 * a_uz * a_wr * u_r * u_z * w_r * cos(a_ur * PI * r / L) * cos(a_uz * PI * z / L) * sin(a_wr * PI * r / L) + 0.3e1 * a_uz * a_wr * u_r * u_z * w_r * cos(a_uz * PI * z / L) * sin(a_wr * PI * r / L) + 0.4e1 * a_wz * a_wz * w_z * w_z * pow(cos(a_wz * PI * z / L), Scalar(0.2e1))) * mu * PI * PI * pow(L, Scalar(-0.2e1)) / 0.3e1 - Gamma * a_pz * PI * p_z * W * sin(a_pz * PI * z / L) / (Gamma - 0.1e1) / L + Scalar(0.4e1) / Scalar(0.3e1) * mu * a_wz * PI * w_z * U * cos(a_wz * PI * z / L) / L / r + Gamma * a_pr * PI * p_r * U * cos(a_pr * PI * r / L) / (Gamma - 0.1e1) / L - (cos(a_ur * PI * r / L) - 0.1e1) * a_ut * PI * u_r * u_t * RHO * U * sin(a_ut * PI * t / L) / L - (cos(a_ur * PI * r / L) - 0.1e1) * mu * a_uz * PI * u_r * u_z * W * cos(a_uz * PI * z / L) / L / r / 0.3e1 - k * a_pr * PI * p_r * cos(a_pr * PI * r / L) / R / L / r / RHO - k * a_rhor * PI * rho_r * P * sin(a_rhor * PI * r / L) / R / L / r * pow(RHO, Scalar(-0.2e1));
   return(Q_e);
 }
 
@@ -155,7 +155,7 @@ Scalar MASA::axi_cns_transient<Scalar>::eval_q_u (Scalar r, Scalar z, Scalar t)
   P = p_0 + p_r * sin(a_pr * PI * r / L) + p_z * cos(a_pz * PI * z / L) + p_t * cos(a_pt * PI * t / L);
   U = u_r * (cos(a_ur * PI * r / L) - 0.1e1) * (u_z * sin(a_uz * PI * z / L) + u_t * cos(a_ut * PI * t / L));
   W = w_0 + w_r * cos(a_wr * PI * r / L) + w_z * sin(a_wz * PI * z / L) + w_t * cos(a_wt * PI * t / L);
-  Q_u = (cos(a_ur * PI * r / L) - 0.1e1) * a_uz * PI * u_r * u_z * RHO * W * cos(a_uz * PI * z / L) / L - a_rhor * PI * rho_r * U * U * sin(a_rhor * PI * r / L) / L + a_rhoz * PI * rho_z * U * W * cos(a_rhoz * PI * z / L) / L - (cos(a_ur * PI * r / L) - 0.1e1) * a_ut * PI * u_r * u_t * RHO * sin(a_ut * PI * t / L) / L + a_rhot * PI * rho_t * U * cos(a_rhot * PI * t / L) / L + 0.4e1 / 0.3e1 * mu * a_ur * a_ur * PI * PI * U * pow(L, Scalar(-0.2e1)) + a_pr * PI * p_r * cos(a_pr * PI * r / L) / L + (0.3e1 * a_uz * a_uz * u_z * cos(a_ur * PI * r / L) * sin(a_uz * PI * z / L) + 0.4e1 * a_ur * a_ur * u_z * sin(a_uz * PI * z / L) + 0.4e1 * a_ur * a_ur * u_t * cos(a_ut * PI * t / L) - 0.3e1 * a_uz * a_uz * u_z * sin(a_uz * PI * z / L)) * mu * PI * PI * u_r * pow(L, Scalar(-0.2e1)) / 0.3e1 - (0.2e1 * a_ur * u_r * u_z * sin(a_ur * PI * r / L) * sin(a_uz * PI * z / L) + 0.2e1 * a_ur * u_r * u_t * sin(a_ur * PI * r / L) * cos(a_ut * PI * t / L) - a_wz * w_z * cos(a_wz * PI * z / L)) * PI * RHO * U / L + RHO * U * U / r + 0.2e1 / 0.3e1 * (a_ur * u_r * u_z * sin(a_ur * PI * r / L) * sin(a_uz * PI * z / L) + a_ur * u_r * u_t * sin(a_ur * PI * r / L) * cos(a_ut * PI * t / L) + a_wz * w_z * cos(a_wz * PI * z / L)) * mu * PI / L / r;
+  Q_u = (cos(a_ur * PI * r / L) - 0.1e1) * a_uz * PI * u_r * u_z * RHO * W * cos(a_uz * PI * z / L) / L - a_rhor * PI * rho_r * U * U * sin(a_rhor * PI * r / L) / L + a_rhoz * PI * rho_z * U * W * cos(a_rhoz * PI * z / L) / L - (cos(a_ur * PI * r / L) - 0.1e1) * a_ut * PI * u_r * u_t * RHO * sin(a_ut * PI * t / L) / L + a_rhot * PI * rho_t * U * cos(a_rhot * PI * t / L) / L + Scalar(0.4e1) / Scalar(0.3e1) * mu * a_ur * a_ur * PI * PI * U * pow(L, Scalar(-0.2e1)) + a_pr * PI * p_r * cos(a_pr * PI * r / L) / L + (0.3e1 * a_uz * a_uz * u_z * cos(a_ur * PI * r / L) * sin(a_uz * PI * z / L) + 0.4e1 * a_ur * a_ur * u_z * sin(a_uz * PI * z / L) + 0.4e1 * a_ur * a_ur * u_t * cos(a_ut * PI * t / L) - 0.3e1 * a_uz * a_uz * u_z * sin(a_uz * PI * z / L)) * mu * PI * PI * u_r * pow(L, Scalar(-0.2e1)) / 0.3e1 - (0.2e1 * a_ur * u_r * u_z * sin(a_ur * PI * r / L) * sin(a_uz * PI * z / L) + 0.2e1 * a_ur * u_r * u_t * sin(a_ur * PI * r / L) * cos(a_ut * PI * t / L) - a_wz * w_z * cos(a_wz * PI * z / L)) * PI * RHO * U / L + RHO * U * U / r + Scalar(0.2e1) / Scalar(0.3e1) * (a_ur * u_r * u_z * sin(a_ur * PI * r / L) * sin(a_uz * PI * z / L) + a_ur * u_r * u_t * sin(a_ur * PI * r / L) * cos(a_ut * PI * t / L) + a_wz * w_z * cos(a_wz * PI * z / L)) * mu * PI / L / r;
   return(Q_u);
 }
 
